@@ -396,7 +396,7 @@ func rotationCase(res *mon.Result, idx int, dir string) {
 	prefix := fmt.Sprintf("c07rot.%d.", idx)
 	online := mon.ProbeOnline(rt.Dispatch, ep, fmt.Sprintf("c07rot%d", idx), 600)
 	tOn := time.Now()
-	if !online || tOn.Sub(tUp) > 600*time.Millisecond {
+	if !online || tOn.Sub(tUp) > 1200*time.Millisecond {
 		lag.Stop()
 		res.Inconclusive(fmt.Sprintf("rotationCase %d: the destination took %v to come online; the first rotation tick cannot be bracketed", idx, tOn.Sub(tUp)))
 		return
